@@ -339,6 +339,13 @@ def run_c05(ck, ctx):
         # several errors at the same offset: stop bit 2 gives [E10] and [E11] on one RDH
         for _ in range(6):
             k = R.randrange(1, len(pk)); pk[k].rdh['stop'] = 2
+        if si % 2 == 0:
+            # links carry different RDH versions (each validator learns its own): per-link state must not be shared
+            for p in pk[1:]:
+                if p.rdh['ver'] in (6, 7): p.rdh['ver'] = 6 if p.rdh['link'] % 2 else 7
+            for p in pk[1:]:
+                if p.rdh['link'] == pk[0].rdh['link'] and p.rdh['ver'] in (6, 7): p.rdh['ver'] = pk[0].rdh['ver']
+            ck.count('schedule_inputs_with_mixed_rdh_versions')
         inp = os.path.join(wd, f'in{si}.raw'); open(inp, 'wb').write(G.encode(pk))
         for m, fmt, mute in [(('all', 'its'), 'json', []), (('all', 'stave'), 'toml', []), (('all', None), 'json', ['-m']), (('all', 'its'), 'toml', ['-m'])]:
             outs, orders = {}, set()
@@ -566,8 +573,33 @@ def run_c04(ck, ctx):
             data = bytearray(R.getrandbits(8) for _ in range(R.randint(64, 3000)))
             data[0:8] = bytes([7, 0x40, R.randrange(48), R.randrange(7) << 4, 0, 32, 0, 0]); data[8:12] = struct_pack_off(R)
             data = bytes(data)
+        elif r in (2, 3):
+            # lane-level damage to ALPIDE data (stave checks): control bytes in odd places, a lane whose data ends
+            # right after a chip header / empty-frame byte, lanes cut short
+            pk = [p.clone() for p in R.choice(base_streams)]
+            cand = [(a, k) for a, p in enumerate(pk) for k, w in enumerate(p.words) if 0x20 <= w[9] <= 0x5E]
+            for _ in range(R.randint(1, 4)):
+                if not cand: break
+                a, k = R.choice(cand)
+                if k >= len(pk[a].words): continue
+                w = bytearray(pk[a].words[k]); lane = w[9]
+                op = R.randrange(3)
+                if op == 0:
+                    w[R.randrange(9)] = R.choice([0xA0, 0xA5, 0xE0, 0xE7, 0xB0, 0xBC, 0xF0, 0xF1, 0xF4, 0xFA, 0xFF, 0xC5, 0x00])
+                elif op == 1:
+                    w[8] = R.choice([0xA0, 0xE0]) | R.randrange(16)            # header as the very last byte …
+                    pk[a].words[k] = bytes(w)
+                    pk[a].words = [x for j, x in enumerate(pk[a].words) if not (j > k and x[9] == lane)]   # … and nothing of that lane after it
+                    for b in range(a + 1, len(pk)):
+                        if pk[b].rdh['link'] == pk[a].rdh['link']:
+                            pk[b].words = [x for x in pk[b].words if x[9] != lane or x[9] >= 0xE0]
+                    continue
+                else:
+                    w[0:9] = bytes(R.choice([0, 0xFF, R.getrandbits(8)]) for _ in range(9))
+                pk[a].words[k] = bytes(w)
+            data = G.encode(pk)
         else: data = mutate_stream(R, R.choice(base_streams))
-        cmd = R.choice(cmds)
+        cmd = R.choice(cmds) if r not in (2, 3) else ['check', 'all', 'its-stave']
         opt = R.choice(opts) if cmd[0] == 'check' else R.choice([[], ['-f', '1'], ['-d']]) if cmd[0] == 'view' else []
         if cmd == ['check', 'all', 'its-stave'] and R.random() < 0.3: opt = ['-s', 'L%d_%d' % (R.randint(0, 6), R.randint(0, 11)), '-p', str(R.randint(1, 3563))]
         jobs.append((i, cmd, opt, R.choice(['file', 'pipe']), data))
